@@ -59,6 +59,38 @@ def cmdImmOnly : List String → Option String
         s!"OK n={countNodesL vs} imm={if Val.immutableL vs then "true" else "false"} checks=ok classes={",".intercalate (sortDistinct (classesOfL vs))}"
   | _ => none
 
+mutual
+/-- every node of a value, at any depth (the order of `canon.walk_nodes`) -/
+def subNodes : Val → List Val
+  | .node c fs => .node c fs :: subNodesF fs
+  | .tuple xs => subNodesL xs
+  | .list xs => subNodesL xs
+  | _ => []
+def subNodesL : List Val → List Val
+  | [] => []
+  | x :: r => subNodes x ++ subNodesL r
+def subNodesF : List (String × Val) → List Val
+  | [] => []
+  | (_, x) :: r => subNodes x ++ subNodesF r
+end
+
+/-- `POOL <dialect> <hex text>…`: parse every text; over ALL nodes of all accepted texts: how many there are and how many are
+structurally distinct (distinct canonical dumps).  `checks=ok` is the prediction for the cross-tree checks only the implementation can
+perform: for every pair of nodes, `==` ⇔ equal dumps, `==` ⇒ equal hashes, and a set / dict of the nodes keeps exactly the distinct dumps. -/
+def cmdPool : List String → Option String
+  | "POOL" :: dn :: hs =>
+    some <| match Gen.D.ofName? dn with
+    | none => "BADREQ dialect"
+    | some d =>
+      let parsed := hs.map fun h => PM.parseStatementsText d (unhex h)
+      let status := parsed.map fun r => match r with | .ok _ => "P" | .error e => e.show.replace " " "_"
+      let vals := parsed.flatMap fun r => match r with | .ok ss => ss.map Ast.Stmt.toVal | .error _ => []
+      let nodes := subNodesL vals
+      let dumps := sortDistinct (nodes.map showVal)
+      if status.any (·.startsWith "UNMODELLED") then "UNMODELLED pool"
+      else s!"OK t={",".intercalate status} n={nodes.length} distinct={dumps.length} checks=ok"
+  | _ => none
+
 def hashStatus (v : Val) : String :=
   match firstList v with
   | none => "hashable"
@@ -121,6 +153,8 @@ def cmdHelp : List String → Option String
 def cmdImm (parts : List String) : Option String :=
   match cmdImmOnly parts with
   | some a => some a
-  | none => cmdHelp parts
+  | none => match cmdPool parts with
+    | some a => some a
+    | none => cmdHelp parts
 
 end Drv
